@@ -289,7 +289,7 @@ def make_site_system(
     n_sites = n_sites or int(rng.integers(2, 8))
     n_atoms = n_atoms or int(rng.integers(1, min(4, n_sites) + 1))
     T = T or int(rng.integers(8, 60))
-    n_labels = n_labels or int(rng.integers(1, min(3, n_sites) + 1))
+    n_labels = min(n_labels or int(rng.integers(1, min(3, n_sites) + 1)), n_sites)
     if inner_fraction is None:
         inner_fraction = float(rng.choice([1.0, 1.0, 0.9, 0.5, 0.3]))
     radius_mode = radius_mode or str(rng.choice(['float', 'dict']))
